@@ -414,7 +414,7 @@ def _applicable(w: World, act: dict) -> bool:
         return _top_t(w, a)
     if op == "txo":
         return _top_t(w, a) and _top_t(w, b) and a != b
-    if op == "sadd":
+    if op in ("sadd", "sadds"):
         return a in w.suites and _top_t(w, b)
     if op == "sdel":
         return a in w.suites and _live_t(w, b) and w.owner(w.tests[b]) in (0, a)
@@ -522,6 +522,8 @@ def replay(beh: dict, seed: int = 0) -> dict:
                 ev["out"]["ts"] = [_out(w, o, a)]
             elif op == "sadd":
                 w.suites[a].add_test_case_chromosome(w.tests[b])
+            elif op == "sadds":
+                w.suites[a].add_test_case_chromosomes([w.tests[b]])
             elif op == "sdel":
                 w.suites[a].delete_test_case_chromosome(w.tests[b])
             elif op == "sset":
